@@ -196,6 +196,10 @@ def run_case(inp):
         return viols
     if not is_ft and np.iscomplexobj(out):
         V("real", "real-space filter returned a complex array")
+    if not np.all(np.isfinite(out)):
+        V("finite", f"filter output has {int(np.sum(~np.isfinite(out)))} non-finite values for a finite input "
+                    f"({entry}, cutoff {cutoff}, order {order})")
+        return viols
     identity = cutoff <= 0 or cutoff >= 0.5 * np.sqrt(3)
     f = np.meshgrid(*[np.fft.fftfreq(s) for s in shape], indexing="ij")
     f2 = sum(x ** 2 for x in f)
@@ -204,19 +208,19 @@ def run_case(inp):
     spec_out = out.astype(np.complex128) if is_ft else np.fft.fftn(out.astype(np.float64))
     expect = gain * spec_in
     err = np.abs(spec_out - expect).max() / (np.abs(spec_in).max() + 1e-12)
-    if err > 2e-4:
+    if not (err <= 2e-4):
         V("gain", f"spectrum differs from 1/(1+(|f|/cutoff)^(2*order)) * input by {err:.3g} "
                   f"({entry}, shape {shape}, {'odd' if any(s % 2 for s in shape) else 'even'}"
                   + (f", after {inp['history']} with the same shape/cutoff/order" if inp.get("history") else "") + ")")
     if not is_ft:
-        if abs(float(out.mean()) - float(img.mean())) > 1e-4 * (1 + abs(float(img.mean()))):
+        if not (abs(float(out.mean()) - float(img.mean())) <= 1e-4 * (1 + abs(float(img.mean())))):
             V("mean", f"mean changed from {img.mean():.6g} to {out.mean():.6g}")
         img2 = r.normal(size=shape).astype(np.float32)
         if inp.get("dtype"):
             return viols            # (linear combinations leave the integer type)
         lin = _apply(entry, (2.0 * img + 0.5 * img2).astype(np.float32), cutoff, order)
         comb = 2.0 * out + 0.5 * _apply(entry, img2, cutoff, order)
-        if lin.shape == comb.shape and np.abs(lin - comb).max() > 1e-3:
+        if lin.shape == comb.shape and not (np.abs(lin - comb).max() <= 1e-3):
             V("linear", f"filter is not linear: {np.abs(lin - comb).max():.3g}")
     return viols
 
@@ -249,6 +253,12 @@ def oracle(rng, thorough, deep=False, hints=None):
                         (["hp", "lp", "hp", "hp"], "utils"), (["hp"], "pipe")):
         cases.append(dict(shape=[7, 8, 6], cutoff=float(rng.choice([0.2, 0.35])), order=2, entry=entry,
                           seed=int(rng.integers(0, 10000)), history=hist))
+    # always: very sharp, very narrow filters -- (f/cutoff)^(2*order) leaves the float32 range in both directions
+    # (cutoff^(2*order) underflows, (f/cutoff)^(2*order) overflows); the gain is still 1 at DC and ~0 elsewhere
+    for (cut, order), entry in zip([(0.01, 12), (0.02, 14), (0.005, 10), (0.01, 12), (0.9, 40), (0.02, 14)],
+                                   ["utils", "backend", "pipe", "utils_ft", "utils", "backend_ft"]):
+        cases.append(dict(shape=[6, 7, 8], cutoff=cut, order=order, entry=entry, seed=int(rng.integers(0, 10000)), history=[]))
+    cases.append(dict(shape=[6, 6, 6], cutoff=1e-12, order=2, entry="model", seed=int(rng.integers(0, 10000)), history=[]))
     viols, stats = [], {"by_entry": {}, "samples": [{"oracle_case": c} for c in cases[:2]]}
     for c in cases:
         stats["by_entry"][c["entry"]] = stats["by_entry"].get(c["entry"], 0) + 1
